@@ -10,6 +10,9 @@ CLAIMED = {
  "C06": dict(tech="Lean 4 theorems (encode/decode round trip, exact consumption, size limits) over a model of protocol.py + extracted header facts + byte-level correspondence",
              text="Proof: for every message, payload, annotation list, compression setting, MAX_MESSAGE_SIZE and trailing stream the model decoder returns exactly what the model encoder was given and consumes exactly its bytes; tie to the code by differential runs of SendingMessage/ReceivingMessage/recv_stub against the model driver on generated and mutated byte strings.",
              note="zlib is a parameter with the round-trip law (validated differentially); connection.recv is 'exactly n bytes or raise' (that contract is C17)."),
+ "C15": dict(tech="Lean 4: generic lock-atomicity theorem over a micro-step interleaving semantics (all schedules, any number of threads) instantiated with the name-server operations; premise = lock shape extracted from nameserver.py; tie by sequential correspondence + deterministic-scheduler exploration of the real code checked for linearizability",
+             text="Proof: every interleaving of any number of concurrent name-server calls equals the sequential execution of the completed calls in lock-release order (Lock.atomic), hence exactly one of n concurrent safe registrations succeeds and concurrent removals of one name report 1,0,0,... and never fail; the premise that every storage access is inside `with self.lock` is re-proved from the extracted lock shape on every run. Tie: sequential histories real vs model; real NameServer with instrumented lock/storage run under all schedules up to a preemption bound, outcomes checked for linearizability.",
+             note="GIL-atomicity of single dict operations assumed; real preemption replaced by the model's 'any schedule' and, on the real code, by enumerated/random schedules at storage-access granularity; sqlite back-end concurrency (its own connection per call) is not modelled."),
  "C17": dict(tech="Lean 4 theorems by induction over arbitrary socket-event scripts for a model of receive_data/send_data + scripted-socket correspondence",
              text="Proof: for every request size, stream and script of socket behaviours (no bound) the model returns exactly the next n bytes or fails with the bytes received so far; sends deliver a prefix, all of it on success. Tie: real receive_data/send_data on a scripted socket vs the model driver, event by event.",
              note="The OS is replaced by the script alphabet (deliver k / retryable errno / fatal errno / timeout / eof)."),
